@@ -53,3 +53,40 @@ Section ObjectModel.
   Lemma emitted_binds_what_python_binds : forall x o v, emitted_binding x o v = py_augassign x o v.
   Proof. reflexivity. Qed.
 End ObjectModel.
+
+(* ---- the object model WITH NotImplemented: an in-place method may decline ---- *)
+Section ObjectModelNI.
+  Variable Val : Type.
+  Variable not_implemented : Val.                                (* the singleton NotImplemented *)
+  Variable has_inplace : Val -> binop -> bool.                   (* hasattr(x, '__iop__') *)
+  Variable inplace : Val -> binop -> Val -> option Val.          (* x.__iop__(v); None = it returned NotImplemented *)
+  Variable binary : Val -> binop -> Val -> Val.                  (* x op v (itself with the reflected fallback) *)
+
+  (* Python (data model 3.3.8): try __iop__; if it is missing OR returns NotImplemented, fall back to x op v *)
+  Definition py_augassign_ni (x : Val) (o : binop) (v : Val) : Val :=
+    if has_inplace x o then match inplace x o v with Some r => r | None => binary x o v end
+    else binary x o v.
+
+  (* the emitted conditional stores whatever the method call returns *)
+  Definition emitted_binding_ni (x : Val) (o : binop) (v : Val) : Val :=
+    if has_inplace x o then match inplace x o v with Some r => r | None => not_implemented end
+    else binary x o v.
+
+  (* what IS proved: whenever the in-place method (if any) does not decline, the stored value is Python's *)
+  Lemma emitted_binds_when_not_declined : forall x o v,
+    (has_inplace x o = true -> inplace x o v <> None) ->
+    emitted_binding_ni x o v = py_augassign_ni x o v.
+  Proof.
+    intros x o v H. unfold emitted_binding_ni, py_augassign_ni.
+    destruct (has_inplace x o); [|reflexivity].
+    destruct (inplace x o v) as [r|]; [reflexivity|]. exfalso. apply H; reflexivity.
+  Qed.
+End ObjectModelNI.
+
+(* the unrestricted statement is FALSE: a declining in-place method makes the emitted code store NotImplemented
+   (known finding K-inplace-notimplemented; witness on the real code:  s = {1}; s |= R()  with R defining __ror__) *)
+Lemma emitted_binding_ni_refuted :
+  exists (x v : nat) (o : binop),
+    emitted_binding_ni nat 0 (fun _ _ => true) (fun _ _ _ => None) (fun _ _ _ => 7) x o v
+    <> py_augassign_ni nat (fun _ _ => true) (fun _ _ _ => None) (fun _ _ _ => 7) x o v.
+Proof. exists 1, 2, BitOr. vm_compute. discriminate. Qed.
